@@ -124,11 +124,26 @@ def gen_case(rnd, g):
         case["input"] = rnd.randrange(len(INPUTS))
         g.feat("with_input")
     elif k < 0.25:
-        case["extra"] = [rnd.choice(["5", "x", "2.5", "t"])][: rnd.choice([1, 1, 1])] + (["zz"] if rnd.random() < 0.2 else [])
+        # extra parameters are Python objects, not necessarily text
+        case["extra"] = [rnd.choice(["5", "x", "2.5", "t", 1, 0, 2.5, True, "f"])][: rnd.choice([1, 1, 1])] + (["zz"] if rnd.random() < 0.2 else [])
         g.feat("with_extra_list")
     elif k < 0.35:
-        case["extra"] = {rnd.choice(["y", "a", "b", "s", "x", "v", "n", "nope"]): rnd.choice(["4", "w", "f"])}
+        case["extra"] = {rnd.choice(["y", "a", "b", "s", "x", "v", "n", "nope"]): rnd.choice(["4", "w", "f", 1, 0, 2.5, True])}
         g.feat("with_extra_dict")
+    if case["extra"] is not None:
+        # the variadic ('*args') parameter takes text only - by design it refuses other objects - so non-text extra
+        # parameters are kept for the commands whose parameters are named
+        try:
+            last = parse(q).segments[-1].query[-1].name
+        except Exception:
+            last = ""
+        if last not in ("flagged", "add", "mulf", "pair", "unann", "none_default", "optint", "optfb"):
+            if isinstance(case["extra"], list):
+                case["extra"] = [x if isinstance(x, str) else str(x) for x in case["extra"]]
+            else:
+                case["extra"] = {k2: (v if isinstance(v, str) else str(v)) for k2, v in case["extra"].items()}
+        elif any(not isinstance(v, str) for v in (case["extra"] if isinstance(case["extra"], list) else case["extra"].values())):
+            g.feat("extra.non_text_object")
     return case
 
 
@@ -279,7 +294,7 @@ def run_shard(spec):
         handle(spec["replay"])
     else:
         rnd = random.Random("%s/C01/%s" % (spec["seed"], spec["part"]))
-        g = QGen(rnd, allow_fail=True)
+        g = QGen(rnd, allow_fail=True, allow_mutators=True)
         for _ in range(spec["n"]):
             handle(gen_case(rnd, g))
         feats = g.features
